@@ -15,7 +15,12 @@ CFG = {
         "algorithm (present, other, alias) x thumbprint (present incl. both BLS G1G2 thumbprints, absent) x tag filter (none, "
         "aimed at a written tag, root-empty, random in-domain tree of depth 2 with plaintext and encrypted names) x limit "
         "(none, 0, 1, 2, -1); every fifth case (c11:raw) also writes Kms rows behind the key API (foreign CBOR, junk, missing "
-        "data, plaintext / repeated alg and thumb tags, unknown tags).  non-trivial = at least one key stored and read back "
+        "data, plaintext / repeated alg and thumb tags, unknown tags).  Gap kind c11:seed (one per 30 cases, algorithm i mod 16: "
+        "eight keys made by LocalKey::from_seed from seeds of 0 / 31 / 32 / 33 / 64 bytes under the default method, 32 under the empty "
+        "method, 32 / 64 under bls_keygen are stored, fetched, loaded, updated, removed, found by algorithm and by thumbprint; from_seed "
+        "alone with five unknown method strings, an empty seed, and bls_keygen seeds of 0 / 1 / 31 bytes).  For EVERY key of every case "
+        "made from a seed the model PREDICTS the secret bytes from (algorithm, seed, method) (Model/Seed.lean over the ChaCha20 / SHA-256 / "
+        "HKDF specifications) instead of taking them from the key table.  non-trivial = at least one key stored and read back "
         "through fetch_key, one update_key or remove_key that succeeded, and one filtered fetch_all_keys with a non-empty "
         "result; distinct = hash of the case"
     ),
